@@ -50,3 +50,6 @@
 ;@specfn uvDecLen : (Array Int Int) Int Int -> Int
 (define-fun unzigzag ((u Int)) Int (ite (= (mod u 2) 0) (div u 2) (- (- (div u 2)) 1)))
 ;@specfn unzigzag : Int -> Int
+; ghost contents of sync.Map objects (keys: content order of the string key)
+;@ghost smhas (Array Int (Array Real Bool))
+;@ghost smval (Array Int (Array Real Int))
